@@ -3,4 +3,5 @@ import Pendulum.Props.C02
 import Pendulum.Props.C03
 import Pendulum.Props.C09
 import Pendulum.Props.C10
+import Pendulum.Props.C13
 import Pendulum.Props.C15
